@@ -33,6 +33,7 @@ NextSubs(e) ==
     [] e.a = "Sub" -> [subs EXCEPT ![e.args.id] = SubRec(e.args.req, e.args.n, e.obs.got, e.obs.st)]
     [] e.a = "Drain" -> [subs EXCEPT ![e.args.id] = DrainRec(e.args.id, e.args.n, UseHeld(e), e.obs.got, e.obs.st)]
     [] e.a = "Cancel" -> [subs EXCEPT ![e.args.id] = NoSub]
+    [] e.a = "Restart" -> [s \in SubIds |-> NoSub]
     [] OTHER -> subs
 
 PropOf(e) ==
@@ -53,6 +54,14 @@ ImplOf(e) ==
     [] e.a = "Tail" -> Grown(e.args.n) /\ hw' = hw /\ ro' = ro /\ obs'.err = ""
     [] e.a = "Commit" -> log' = log /\ hw' = (IF log = <<>> THEN hw ELSE Last(log).off)
     [] e.a = "Readonly" -> log' = log /\ hw' = hw /\ ro' = e.args.b
+    \* the split check of a cleaner tick: an active segment that holds a record is rolled
+    \* (the new one is empty, its base offset is the log end), an empty one is kept
+    [] e.a = "Roll" -> /\ log' = log /\ hw' = hw /\ ro' = ro /\ obs'.err = ""
+                       /\ IF SegRecs(log, segs, Len(segs)) # <<>>
+                          THEN obs'.st = "rolled" /\ segs' = Append(segs, Newest + 1)
+                          ELSE obs'.st = "kept" /\ segs' = segs
+    \* a restart keeps the log, its segments (an empty active one too) and the HW
+    [] e.a = "Restart" -> log' = log /\ segs' = segs /\ hw' = hw /\ ro' = ro /\ obs'.err = ""
     \* (with retention the cleaner also deletes whole oldest segments: any subset of the log)
     [] e.a = "Clean" -> hw' = hw /\ ro' = ro /\ \A i \in 1..Len(log') : \E j \in 1..Len(log) : log[j] = log'[i]
     [] OTHER -> TRUE
